@@ -18,6 +18,8 @@ type SStmt struct {
 	Ep   string  `json:"ep,omitempty"`
 	Text string  `json:"text,omitempty"`
 	Body []SStmt `json:"body,omitempty"`
+	// attributes of a call statement (`App <- Ep [owner="w"]`): what a format string's %(@owner) reads
+	Attrs []string `json:"attrs,omitempty"`
 }
 type SEp struct {
 	Name   string   `json:"name"` // RPC: the name; REST: "GET /a/{id}"
@@ -53,12 +55,15 @@ type SView struct {
 	Pass  []string `json:"pass,omitempty"`
 	Excl  []string `json:"excl,omitempty"`
 	Attrs []string `json:"attrs,omitempty"`
+	Calls []SStmt  `json:"calls,omitempty"` // call statements of the view (what `sd -a Project` starts from)
 }
 type SModel struct {
 	Shape   string  `json:"shape"`
 	Apps    []SApp  `json:"apps"`
 	Project string  `json:"project,omitempty"`
 	Views   []SView `json:"views,omitempty"`
+	// further attributes of the project application: epfmt / appfmt / seqtitle / title format strings
+	ProjAttrs []string `json:"projattrs,omitempty"`
 }
 
 // ---------------------------------------------------------------- rendering
@@ -77,7 +82,7 @@ func renderStmts(b *strings.Builder, ind string, ss []SStmt) {
 	for _, s := range ss {
 		switch s.K {
 		case "call":
-			fmt.Fprintf(b, "%s%s <- %s\n", ind, s.App, s.Ep)
+			fmt.Fprintf(b, "%s%s <- %s%s\n", ind, s.App, s.Ep, attrStr(s.Attrs))
 		case "ret":
 			fmt.Fprintf(b, "%sreturn %s\n", ind, s.Text)
 		case "act":
@@ -160,7 +165,7 @@ func (m *SModel) Render() string {
 		b.WriteString("\n")
 	}
 	if m.Project != "" {
-		fmt.Fprintf(&b, "%s [~project]:\n", m.Project)
+		fmt.Fprintf(&b, "%s%s:\n", m.Project, attrStr(append([]string{"~project"}, m.ProjAttrs...)))
 		if len(m.Views) == 0 {
 			b.WriteString("    ...\n")
 		}
@@ -173,11 +178,14 @@ func (m *SModel) Render() string {
 				at = append(at, "exclude=[\""+strings.Join(v.Excl, "\", \"")+"\"]")
 			}
 			fmt.Fprintf(&b, "    %s%s:\n", v.Name, attrStr(at))
-			if len(v.Apps) == 0 {
+			if len(v.Apps) == 0 && len(v.Calls) == 0 {
 				b.WriteString("        ...\n")
 			}
 			for _, a := range v.Apps {
 				fmt.Fprintf(&b, "        %s\n", a)
+			}
+			if len(v.Calls) > 0 {
+				renderStmts(&b, "        ", v.Calls)
 			}
 		}
 	}
